@@ -3,6 +3,7 @@ pub mod maps;
 pub mod modules;
 pub mod stack;
 pub mod values;
+pub mod vm;
 
 use crate::framework::Engine;
 
@@ -16,6 +17,7 @@ pub fn all() -> Vec<Box<dyn Engine>> {
         Box::new(values::TblEngine),
         Box::new(modules::ModEngine),
         Box::new(compile::CmpEngine),
+        Box::new(vm::VmEngine),
     ]
 }
 
